@@ -399,6 +399,12 @@ func RunOnce(o Options, body func(*Run)) (*Run, []string) {
 	if x.diverged != "" {
 		InfraError("%q diverged: %s", o.Name, x.diverged)
 	}
+	if len(r.fails) > 0 {
+		// failures of the run itself (deadlock, horizon, uncaught panic, Failf) are violations
+		cls := firstLine(r.fails[0])
+		Record(&Result{Name: o.Name, Kind: "inputs", Executions: 1, States: 1, Transitions: 1, Exhaustive: true, Outcomes: map[string]int{},
+			Violations: []Violation{{Scenario: o.Name, Msgs: r.fails, Log: r.log, Finger: fingerprint(o.Name, cls), Class: cls}}})
+	}
 	return r, r.fails
 }
 
